@@ -251,19 +251,34 @@ def classify_arm64(op, rest, where):
         return [rec("jcc", fn=A64_JCC[op], t=int(ops[0]))]
     if op == "CMP":       # CMP x, Rn sets flags from Rn - x
         return [rec("cmp", a=a64_operand(ops[1]), b=a64_operand(ops[0]), w=8)]
-    if op == "MOVD":
+    A64_MOVW = {"MOVD": 8, "MOVW": 4, "MOVWU": 4, "MOVH": 2, "MOVHU": 2, "MOVB": 1, "MOVBU": 1}
+    if op in A64_MOVW:
         a, b = a64_operand(ops[0]), a64_operand(ops[1])
         if a["k"] == "sb":
             return [rec("lea", a=a, b=b, w=8)]
-        if a["k"] == "m" or b["k"] == "m":
-            raise core.Infra("asm(arm64): scalar load/store %s not in the table (%s)" % (rest, where))
-        return [rec("mov", a=a, b=b, w=8)]
-    if op in ("ADD", "SUB"):
+        # scalar load / store: the footprint is the operand width; a loaded register is written whole
+        return [rec("mov", a=a, b=b, w=A64_MOVW[op] if (a["k"] == "m" or b["k"] == "m") else 8)]
+    if op in ("CBZ", "CBNZ"):          # compare with zero and branch: flags from the register, then the branch
+        return [rec("cmp", a=a64_operand(ops[0]), b=dict(k="i", r="", v=0), w=8),
+                rec("jcc", fn="eq" if op == "CBZ" else "ne", t=int(ops[1]))]
+    A64_ALU = {"ADD": "add", "SUB": "sub", "AND": "and", "ORR": "or", "EOR": "xor", "LSL": "shl", "LSR": "shr",
+               "ASR": "other", "ROR": "other", "MUL": "other", "BIC": "other", "ORN": "other", "EON": "other",
+               "ADDW": "add", "SUBW": "sub", "ANDW": "and", "ORRW": "or", "EORW": "xor", "LSLW": "shl", "LSRW": "shr",
+               "RORW": "other", "REV": "other", "REVW": "other", "REV16": "other", "CLZ": "other", "RBIT": "other",
+               "NEG": "other", "MVN": "other"}
+    if op in A64_ALU:
         o = [a64_operand(x) for x in ops]
-        fn = "add" if op == "ADD" else "sub"
+        fn = A64_ALU[op]
+        if len(o) == 2 and op in ("REV", "REVW", "REV16", "CLZ", "RBIT", "NEG", "MVN"):     # unary: dst = f(src)
+            return [rec("mov", a=o[0], b=o[1], w=8), rec("alu", fn="other", a=o[1], b=o[1], w=8)]
         if len(o) == 2:
             return [rec("alu", fn=fn, a=o[0], b=o[1], w=8)]
         out = []
+        if o[0]["k"] == "r" and o[0]["r"] == o[2]["r"]:
+            # OP Rd, Rn, Rd: the destination already holds the first operand; combine it with Rn (the taint is
+            # exact, the value only for the commutative operations)
+            out.append(rec("alu", fn=fn if fn in ("add", "and", "or", "xor") else "other", a=o[1], b=o[2], w=8))
+            return out
         if o[1]["r"] != o[2]["r"]:
             out.append(rec("mov", a=o[1], b=o[2], w=8))
         out.append(rec("alu", fn=fn, a=o[0], b=o[2], w=8))
